@@ -314,7 +314,10 @@ def units(tier):
              ("ff", [1, 1], {"packcrc": True, "packcrc_defined": [False, True]}), ("fff", [2, 1], {"digests": "partial"})]   # a base without any CRC: after the append the digest vector is partially defined   # a folder without members (what appending a lone directory leaves); above: a foreign base without any mtime / attribute property
     if tier == "thorough":
         bases += [("fff", [2, 1], {"times": "partial"}), ("fed", [1], {"emptyfile_vector": True}), ("fdff", [2, 1], {}),
-                  ("fff", [1, 2], {"packcrc": True}), ("ff", [2], {"omit_numunpack": False})]
+                  ("fff", [1, 2], {"packcrc": True}), ("ff", [2], {"omit_numunpack": False}),
+                  ("ff", [2], {"ncoders": 2}), ("ffd", [2], {"dummy": 3}), ("fff", [1, 1, 1], {"crc_at": "folder"}),
+                  ("ff", [1, 1], {"crc_at": "folder", "omit_substreams": True}), ("fef", [2], {"attrs": "none", "times": "none"}),
+                  ("lf", [2], {}), ("ff", [2], {"dummy": 200})]
     news = ["s", "ss", "sd", "", "d", "l"] if tier == "quick" else ["s", "ss", "sd", "ds", "sss", "", "d", "l", "sl", "ls"]
     for (p, f, o) in bases:
         for nw in news:
